@@ -47,6 +47,20 @@ func (g *pg) throwPoint(d int, sc scope) val.V {
 	if g.f.Sentinels {
 		max = 10
 	}
+	if g.f.Sentinels && g.inTry > 0 && g.chance("rawpanic", 12) {
+		// a panic of an embedder function bound without the reflective binder
+		g.use("raw-go-panic")
+		return call("raw-panic-go!")
+	}
+	if g.f.Atoms && g.chance("swapthrow", 12) {
+		// thrown out of an update function that has re-set its atom: the swap must fail, not try again
+		g.use("throw-in-swap")
+		at := sym("at")
+		return call("let", lst(at, call("atom", val.I(0))),
+			call("swap!", at, call("fn", lst(sym("v")), call("if", call("<", sym("v"), val.I(1)),
+				call("do", call("reset!", at, val.I(5)), call("throw", g.datum(d, sc))),
+				call("+", sym("v"), val.I(100))))))
+	}
 	switch c := g.pick("throwkind", max); {
 	case c <= 1:
 		return call("throw", g.datum(d, sc))
